@@ -393,7 +393,7 @@ pub mod vault_ex {
         end_checks(DECLARED);
     }
 
-    /// balance / total_supply / allowance / decimals: the share token's stored state; `decimals` is the
+    /// balance / total_supply / allowance / name / symbol / decimals: the share token's stored state; `decimals` is the
     /// OVERRIDDEN one (underlying asset's decimals + virtual offset), not `Base::decimals` (stored metadata)
     #[kani::proof]
     #[kani::unwind(18)]
@@ -409,13 +409,20 @@ pub mod vault_ex {
         let (s_asset, s_off) = (model::slot(S_ASSET), model::slot(S_OFFSET));
         let a_vault0 = tok_balance(&vault);
         let asset_dec = token_world().decimals;
+        // stored metadata: absent / any decimals (what `Base::decimals` would answer: NOT what a vault must answer)
+        let mp: bool = kani::any();
+        let m0 = Metadata { decimals: kani::any(), name: String::from_str(&e, "Vault Share"), symbol: String::from_str(&e, "VS") };
+        model::declare_val(DECLARED, 2, &FungibleStorageKey::Meta, mp, &m0, 0);
+        let s_meta = model::slot(DECLARED);
         let which: u8 = kani::any();
-        kani::assume(which < 4);
+        kani::assume(which < 6);
 
         match which {
             0 => prop!(<Ex as FungibleToken>::balance(&e, owner.clone()) == bal_pre(&p.sh, &owner), "C01.vault_example.balance.reads_stored_share_balance"),
             1 => prop!(<Ex as FungibleToken>::total_supply(&e) == p.sh.supply, "C01.vault_example.total_supply.reads_stored_supply"),
             2 => prop!(<Ex as FungibleToken>::allowance(&e, owner.clone(), spender.clone()) == allowance_worth(&al), "C02.vault_example.allowance.reads_live_allowance"),
+            3 => prop!(<Ex as FungibleToken>::name(&e) == m0.name && mp, "C01.vault_example.name.reads_stored_metadata"),
+            4 => prop!(<Ex as FungibleToken>::symbol(&e) == m0.symbol && mp, "C01.vault_example.symbol.reads_stored_metadata"),
             _ => {
                 let d = <Ex as FungibleToken>::decimals(&e);
                 prop!(p.asset_set, "C05.vault_example.decimals.asset_configured");
@@ -424,11 +431,16 @@ pub mod vault_ex {
         }
         prop!(supply_now() == p.sh.supply && bal_now(&owner) == bal_pre(&p.sh, &owner), "C05.vault_example.token_views.shares_untouched");
         prop!(model::slots_equal(&model::slot(S_ALLOW), &pre_al_slot), "C05.vault_example.token_views.allowance_untouched");
-        prop!(config_untouched(&p, &s_asset, &s_off, a_vault0, &vault) && model::n_events() == 0, "C05.vault_example.token_views.assets_and_configuration_untouched");
+        prop!(
+            config_untouched(&p, &s_asset, &s_off, a_vault0, &vault) && model::slots_equal(&model::slot(DECLARED), &s_meta) && model::n_events() == 0,
+            "C05.vault_example.token_views.assets_configuration_and_metadata_untouched"
+        );
         witness!(which == 0 && bal_pre(&p.sh, &owner) > 0, "token_views.balance_positive");
         witness!(which == 2 && allowance_worth(&al) > 0, "token_views.allowance_positive");
-        witness!(which == 3 && p.offset == 10, "token_views.decimals_offset_10");
-        end_checks(DECLARED);
+        witness!(which == 3, "token_views.name");
+        witness!(which == 5 && p.offset == 10 && mp && m0.decimals != asset_dec + 10, "token_views.decimals_offset_10_differs_from_stored_metadata");
+        witness!(which == 5 && !mp, "token_views.decimals_without_metadata");
+        end_checks(DECLARED + 1);
     }
 
     /// constructor: asset and offset are configured exactly once (a second construction never returns), the
